@@ -1,2 +1,26 @@
-(* C04 - placeholder until the proofs are in (statements added below as they are proved) *)
-From Verif Require Import Shapes.Eval.
+(* C04 - logical/shape-based components compose by conformance, not by leaked results. *)
+From Coq Require Import List NArith Bool.
+From Verif Require Import Base.SetList Base.Terms Base.Vocab Paths.Path Shapes.AST Shapes.Leaf Shapes.Eval
+  Shapes.EvalProofs.
+Import ListNotations.
+
+(* A node conforms to a referenced shape exactly when validating it against that shape
+   yields no results - for every environment (recursive or not), every option setting,
+   every evaluation path and depth. *)
+Theorem C04_conform_iff_empty : forall o g E fuel ep s foci c rs,
+  vshape fuel o g E false ep s foci = Ok (c, rs) -> (c = true <-> rs = []).
+Proof. intros o g E fuel ep s foci c rs H. exact (vshape_good o g E fuel ep s foci (c, rs) H). Qed.
+Print Assumptions C04_conform_iff_empty.
+
+(* and every component hands back `conforms` exactly when it reports nothing *)
+Theorem C04_component_conform_iff_empty : forall nested g E s fvs ep c cr,
+  nested_good nested -> evalc nested g E s fvs ep c = Ok cr -> (fst cr = true <-> snd cr = []).
+Proof. exact evalc_good. Qed.
+Print Assumptions C04_component_conform_iff_empty.
+
+(* without severity waivers the verdict is 'conforms' exactly when there is no result *)
+Theorem C04_verdict_default : forall o sg g E c rs,
+  allow_infos o = false -> allow_warnings o = false ->
+  validate o sg g E = Ok (c, rs) -> (c = true <-> rs = []).
+Proof. exact validate_verdict_default. Qed.
+Print Assumptions C04_verdict_default.
